@@ -201,17 +201,30 @@ func c11http(c *an.Ctx) {
 			}
 			return false
 		}
-		b := rc.Block()
-		good := true
-		if len(b.Preds) <= 1 {
-			good = okEdge(an.FactsAt(b))
-		} else {
-			for _, p := range b.Preds {
-				if !okEdge(an.FactsOnEdge(an.Edge{From: p, To: b})) {
-					good = false
+		// per path: every way to the router passes an edge on which tlsEnabled is true or tlsRequired
+		// is false; a gate computed into a boolean first (`allowed := enabled || !required`) is
+		// judged by the operand the merge took on that path
+		gate := func(e an.Edge, st *an.PathState) bool {
+			fs := an.FactsOnEdge(e)
+			for _, f := range an.FactsOnEdge(e) {
+				v, truth := st.Selected(f.V), f.True
+				for {
+					if u, ok := v.(*ssa.UnOp); ok && u.Op == token.NOT {
+						v, truth = st.Selected(u.X), !truth
+						continue
+					}
+					break
+				}
+				if v != f.V {
+					fs = append(fs, an.Fact{V: v, True: truth, If: f.If})
 				}
 			}
+			return okEdge(fs)
 		}
+		rc := rc
+		q := &an.PathQ{Fn: serve, StartEntry: true, Sink: func(in ssa.Instruction, _ *an.PathState) bool { return in == rc }, CutEdge: gate}
+		_, found := q.Find()
+		good := !found
 		c.Check(good, serve, "router behind the TLS gate", rc.Pos(), "", "the router is reachable for a plaintext request although TLS is required")
 	}
 	// the refusing arm answers 403 and returns
